@@ -34,6 +34,8 @@ def line_text(k, n, a, b):
         return 'nop'
     if k == 'm2':
         return 'two4'
+    if k == 'ustr':
+        return '.cstr "\\u0141"'
     if k == 'i2':
         return f'ld8 {operand(n, a)}'
     if k == 'i3':
